@@ -8,7 +8,7 @@
 From Coq Require Import List Reals.
 From Coquelicot Require Import Coquelicot.
 Import ListNotations.
-From PP Require Import Model.C42 Proofs.C42.
+From PP Require Import Model.C42 Proofs.C42 Proofs.C42_chain.
 Open Scope R_scope.
 
 (* Saturations are non-negative ... *)
